@@ -136,6 +136,12 @@ func (s *server) meta(ctx context.Context, sc script, stream grpc.ServerStream) 
 			grpc.SetHeader(ctx, saw)
 		}
 	}
+	if sc.Quirk == "bad-header-value" && stream == nil {
+		// from a unary handler grpc.SetHeader reaches the transport stream, which does not look at the metadata:
+		// a value no stream's SetHeader would take goes out (and arrives) as it is
+		e := grpc.SetHeader(ctx, metadata.MD{"x-odd": {"caf\xc3\xa9"}})
+		s.saw(fmt.Sprintf("unary setheader: non-ascii value=%v", status.Code(e)))
+	}
 	if sc.Quirk == "bad-header-key" && stream != nil {
 		// metadata no connection carries (an MD literal keeps its capitals; a value with a control character):
 		// the stream refuses it with a status and nothing of it reaches the client
@@ -665,6 +671,7 @@ func scripts(thorough bool) []script {
 	for _, shape := range []string{"sstream", "cstream", "bidi"} {
 		out = append(out, script{Shape: shape, HeaderMode: "set", Trailer: true, N: 1, Final: "ok", ErrAfter: -1, Client: "normal", Quirk: "bad-header-key"})
 	}
+	out = append(out, script{Shape: "unary", HeaderMode: "set", Trailer: true, N: 1, Final: "ok", ErrAfter: -1, Client: "normal", Quirk: "bad-header-value"})
 	for n := 0; n <= 1; n++ {
 		out = append(out, script{Shape: "cstream", HeaderMode: "set", Trailer: true, N: n, Final: "ok", ErrAfter: -1, Client: "cancel", Quirk: "giveup"})
 	}
